@@ -131,6 +131,22 @@ func (c schedCfg) dstTag(id string) string {
 	return ""
 }
 
+// dstTagAt is dstTag for an instant: the tag of the window it lies in, or - for an instant outside every window -
+// of a window that opened on one of the days around it (its edge may be what puts the instant outside).
+func (c schedCfg) dstTagAt(t time.Time, id string) string {
+	if id != "" {
+		return c.dstTag(id)
+	}
+	lt := t.In(c.loc)
+	for d := 1; d >= -8; d-- {
+		day := time.Date(lt.Year(), lt.Month(), lt.Day()+d, 12, 0, 0, 0, time.UTC)
+		if tag := c.dstTag(day.Format("2006-01-02")); tag != "" {
+			return tag
+		}
+	}
+	return ""
+}
+
 // c18Violate reports a violation unless the window edge involved is a wall-clock time that occurs twice on
 // that day (end of daylight saving): the configuration then names two instants and the statement does not
 // say which one is meant, so the run is not judged further (the caller stops the run).
@@ -241,6 +257,7 @@ func runC18(env *Env, tier string) {
 
 	// position the clock before the engine exists (no timers yet, so this costs nothing)
 	base := time.Now()
+	var dstTr time.Time // the clock change a window edge was put into (zero: none)
 	if ch.Chance("dst", 1, 3) {
 		targets := []time.Time{
 			time.Date(2000, 4, 1, 0, 0, 0, 0, time.UTC),   // US spring forward Apr 2
@@ -251,6 +268,32 @@ func runC18(env *Env, tier string) {
 		}
 		base = targets[ch.Choose("dsttarget", len(targets))]
 		env.Stat("probe_positioned_near_dst_change")
+		if _, tr := base.In(sc.loc).ZoneBounds(); !tr.IsZero() && tr.Sub(base) < 72*time.Hour && ch.Chance("dstedge", 1, 2) {
+			// put a window edge INTO the hour the change affects: a wall-clock time that does not exist that
+			// day (clocks go forward) or exists twice (clocks go back)
+			_, offBefore := tr.Add(-time.Second).In(sc.loc).Zone()
+			_, offAfter := tr.In(sc.loc).Zone()
+			width := offAfter - offBefore
+			from := tod(tr.Add(-time.Second).In(sc.loc)) + 1 // first skipped reading
+			if width < 0 {
+				width = -width
+				from = tod(tr.In(sc.loc)) // first repeated reading
+			}
+			edge := (from + ch.Choose("dstedgesec", width)) % 86400
+			if sc.start == sc.end {
+				sc.start, sc.end = edge, edge
+			} else if ch.Chance("dstedgeisend", 1, 2) {
+				sc.end = edge
+			} else {
+				sc.start = edge
+			}
+			if sc.start == sc.end && !fullDay && !sc.fullWeek {
+				sc.end = (sc.start + 3600) % 86400
+			}
+			extra[config.StartTime], extra[config.EndTime] = fmtTod(sc.start), fmtTod(sc.end)
+			env.Stat("probe_window_edge_inside_dst_change")
+			dstTr = tr
+		}
 	} else {
 		base = base.Add(time.Duration(ch.Choose("startday", 7)*24+ch.Choose("starthour", 24)) * time.Hour)
 	}
@@ -310,6 +353,16 @@ func runC18(env *Env, tier string) {
 		t = t.Add(time.Duration(137+ch.Choose("ms", 700)) * time.Millisecond)
 		if t.After(startInst.Add(5 * time.Second)) {
 			probes = append(probes, t)
+		}
+	}
+	if !dstTr.IsZero() {
+		// ... and look at the hours around that clock change
+		for _, d := range []int{-7300, -3700, -1900, -600, -61, -5, 5, 61, 600, 1900, 3700, 7300} {
+			if ch.Chance("dstprobe", 2, 3) {
+				if t := dstTr.Add(time.Duration(d)*time.Second + time.Duration(137+ch.Choose("ms", 700))*time.Millisecond); t.After(startInst.Add(5 * time.Second)) {
+					probes = append(probes, t)
+				}
+			}
 		}
 	}
 	sort.Slice(probes, func(i, j int) bool { return probes[i].Before(probes[j]) })
@@ -386,7 +439,7 @@ func runC18(env *Env, tier string) {
 		_, got := LastOfType(r, "A")
 		env.Note("probe %s: in window %v, logon accepted %v", desc, want, got)
 		if got != want {
-			c18Violate(env, "C18/classification"+sc.dstTag(id), "%s is %s a window of schedule %v, but a valid Logon was %s", desc, map[bool]string{true: "inside", false: "outside"}[want], extra, map[bool]string{true: "accepted", false: "refused"}[got])
+			c18Violate(env, "C18/classification"+sc.dstTagAt(t, id), "%s is %s a window of schedule %v, but a valid Logon was %s", desc, map[bool]string{true: "inside", false: "outside"}[want], extra, map[bool]string{true: "accepted", false: "refused"}[got])
 			break
 		}
 		if !want {
@@ -536,7 +589,7 @@ func runC18Initiator(env *Env, c EngineCfg, sc schedCfg, extra map[string]string
 		env.Note("probe %s: in window %v, dials in the next %d s: %d", desc, want, watch, dials)
 		if (dials > 0) != want {
 			_, id := sc.in(t)
-			c18Violate(env, "C18/initiator-classification"+sc.dstTag(id), "%s is %s a window of schedule %v (engine created %s one), but the initiator dialled %d times in the following %d s (ReconnectInterval %d s)",
+			c18Violate(env, "C18/initiator-classification"+sc.dstTagAt(t, id), "%s is %s a window of schedule %v (engine created %s one), but the initiator dialled %d times in the following %d s (ReconnectInterval %d s)",
 				desc, map[bool]string{true: "inside", false: "outside"}[want], extra, map[bool]string{true: "inside", false: "outside"}[startIn], dials, watch, reconnect)
 			return
 		}
